@@ -24,6 +24,18 @@ CLAIMS = {
          "parameter/argument counts, built-subset) is symbolic, the assertion is 'raises iff inconsistent' and 'nothing recorded'.", "§6 C13"),
  "C19": ("Real to_register_bits / register_bitstrings / collate code interpreted against an in-order replay reference; integer data values "
          "unbounded, bools symbolic; shots of <=2 (quick) / 3 (thorough) entries over a tag pool; strict flags symbolic.", "§6 C19"),
+ "C02": ("Store-level round trip: the real _to_serial and _from_serial on stores with deleted nodes, index reuse, metadata, multi-links and order links "
+         "(links symbolic), compared with the renumbered original; JSON text fixed point on the native replay of every path. Operation attributes: C05.", "§6 C02"),
+ "C03": ("Index sanity of the written document on the C02 store states; port addressing (value ports by signature position, static port after the "
+         "value inputs, order edge after those) for every connected-subset of a node's ports; strict-schema validation of each concretised document.", "§6 C03"),
+ "C04": ("Inductive step per store operation from a pre-state defined by N nodes and E individually optional symbolic links (unbounded port offsets, "
+         "sub-offsets = insertion ranks, seeded into a symbolic association list), every query compared with the sequential multigraph model.", "§6 C04"),
+ "C05": ("Every type / param / arg / value / operation class built with symbolic string, integer and bound leaves, encoded by the real _to_serial, decoded "
+         "by the real deserialize(): attribute-by-attribute equality, same document, same derived facts; foreign (hugr-core style) document re-save.", "§6 C05"),
+ "C08": ("insert_hugr from symbolic store states of A and B (B with holes, metadata, multi- and order links, unbounded offsets): mapping is a bijection "
+         "onto fresh nodes preserving ops, hierarchy, child order, metadata, counts and ordered per-port link lists; A and B otherwise unchanged; insert_* wrappers.", "§6 C08"),
+ "C15": ("Tracked builder vs explicit-wire twin on symbolic programs (tracked indices symbolic, holes, mixed int/wire arguments, metadata): same tracked "
+         "state after every command and the same HUGR node for node, link for link; index discipline of track/untrack.", "§6 C15"),
 }
 NA_PENDING = "not yet built in this session (design in DESIGN.md §6); no claim is made"
 def main():
